@@ -30,6 +30,9 @@ JOBQUEUE = {
                      {"module": "JobQueue_Sim.tla", "cfg": "JobQueue_Sim_jc.cfg", "num": 2000, "depth": 51,
                       "harness_cfg": dict(JQ_HCFG, JCSync=True), "flags": []}],
     },
+    "goals": {t: [{"module": "JobQueue_Goal.tla", "cfg": "JobQueue_Goal_jc.cfg", "harness_cfg": dict(JQ_HCFG, JCSync=True, MaxJobs=2), "timeout": 300, "flags": ["-suffix", n]},
+                  {"module": "JobQueue_Goal.tla", "cfg": "JobQueue_Goal_q.cfg", "harness_cfg": JQ_HCFG, "timeout": 300, "flags": ["-suffix", n]}]
+              for t, n in (("quick", "20"), ("thorough", "50"))},
     "harness": {
         "quick": [
             {"name": "random", "args": ["jobqueue", "-mode", "random", "-seed", "{seed}", "-runs", "150", "-steps", "90"]},
